@@ -6043,7 +6043,8 @@ int32 psX509AuthenticateCert(psPool_t *pool, psX509Cert_t *subjectCert,
                certificate: also require the digest of the to-be-signed
                certificate and the subject to be identical, so that sc really
                is a copy of the trusted certificate ic. */
-            if (sc->signatureLen == ic->signatureLen
+            if (sc != ic /* a certificate is not "a copy of a trusted one" by being compared with itself */
+                && sc->signatureLen == ic->signatureLen
                 && memcmpct(sc->signature, ic->signature, sc->signatureLen) == 0
                 && sc->sigHashLen > 0
                 && sc->sigHashLen == ic->sigHashLen
